@@ -445,7 +445,7 @@ func (vc *VC) check(st *State, fr *Frame, kind, clause string, tags []string, go
 		}
 		st.known[goal] = true
 	}
-	o := &Obligation{Name: vc.oblName(top.fn, kind, clause), Func: top.fn.String(), Kind: kind, Tags: tags, Site: vc.pos(site)}
+	o := &Obligation{Name: vc.oblName(top.fn, kind, clause), Func: top.fn.String(), Kind: kind, Tags: tags, Site: vc.pos(site), Text: vc.curText}
 	vc.emit(st, o, goal)
 	st.assume(goal)
 }
@@ -477,7 +477,9 @@ func (vc *VC) checkClause(st *State, fr *Frame, env *SpecEnv, kind string, cl *C
 			goal = env.evalBool(p)
 		}()
 		if goal != "" {
+			vc.curText = p.String()
 			vc.check(st, fr, kind, name, cl.Tags, goal, site)
+			vc.curText = ""
 		}
 	}
 }
